@@ -38,6 +38,12 @@ CHECKS["C06"] = ("model_checking",
   "Trusted: sequential consistency at hook points; results are compared with any committed state of the run (not narrowed to the open interval).",
   "DESIGN.md §3-C06")
 
+CHECKS["C28"] = ("model_checking",
+  "explicit-state enumeration of index states x fates of the original x operation sequences on the copy, with libc interposition observing every access under the original path",
+  "Every canonical index state with at least one segment reached by a BFS over writer histories (several segments, tombstones, non-empty WAL) is copied to a new path; the original is kept, modified or removed; every sequence of up to 2 (quick) / 3 (thorough) operations from {add+commit, delete+commit, compact, reopen, uncommitted add} runs on the copy between searches while the executable's interposed libc entry points record any path access under the original root. Oracle: the copy opens and its searches equal the model; zero accesses (reads included) under the original path; original bytes unchanged / not recreated.",
+  "Trusted: accesses are observed at the libc boundary of the checking process (open*, stat*, statx, access, unlink*, rename*, mkdir, rmdir, opendir, readlink); contents model.",
+  "DESIGN.md §3-C28")
+
 NOT_YET = "check not built yet in this session (see DESIGN.md §3 for the planned engine); no verdict is claimed"
 NOT_APPLICABLE = {}
 
